@@ -386,7 +386,7 @@ class CBO(Search):
         if initial_points is not None and len(initial_points) > 0:
             for point in initial_points:
                 if isinstance(point, list):
-                    self._initial_points.append(point)
+                    self._initial_points.append(list(point))
                 elif isinstance(point, dict):
                     self._initial_points.append(
                         [point[hp_name] for hp_name in problem.hyperparameter_names]
